@@ -19,7 +19,7 @@ What is proved here, and what is inherited:
 * `C13_multiset`, `C13_multiset_distrib`, `C13_returns`, `C13_clean_end` — safety, proved outright from
   the clean-run invariant (`Lemmas/PiterClean*.lean`), which reuses the queue's `DataInv`
   (exactly-once, `Lemmas/QueueInv.lean`) through the embedding `qcfg`.
-* `C13_threads_end` — "every quiescent configuration is final" is the deadlock-freedom of this LTS;
+* `C13_threads_end_partial` — "every quiescent configuration is final" is the deadlock-freedom of this LTS;
   it is **inherited as the hypothesis `hlive`** (the queue's liveness is being proved separately,
   `C04Live`); what is proved here is everything around it: final ⇒ every producer finished and
   `shutdown()` has returned; `shutdown` is enabled exactly when every task has finished
@@ -168,8 +168,15 @@ function, after an early stop after any number of steps.
 corresponding statement for the queue LTS is the liveness half of C04/C05, proved separately; on the
 real code it is what the deterministic scheduler checks on every run: outcome `done`, never `deadlock`).
 *Proved*: in a final configuration every producer task has run to its end — so `shutdown()`, which is
-only enabled then (`C13_shutdown_joins`), has returned — and the consumer is past `shutdown`. -/
-theorem C13_threads_end
+only enabled then (`C13_shutdown_joins`), has returned — and the consumer is past `shutdown`.
+
+Full-strength statement (NOT proved here — `_partial`): the same conclusion without `hlive`, i.e.
+`Reachable F (init …) c → Quiescent F c → (∀ t ∈ c.ths, t.isProd → t.q.pc = .done) ∧ (consumer at fin)`,
+together with "there is no infinite execution".  Missing: the no-lost-wake-up invariant and the variant of
+the queue LTS (C04Live/C05Live, in progress elsewhere) lifted through the embedding `qcfg`, plus the two
+new blocking operations of this layer (the input lock: its owner never blocks while holding it; the pool:
+a queued task starts as soon as a running one ends). -/
+theorem C13_threads_end_partial
     (hlive : ∀ c, Reachable F (Piter.init cap bm mw ns soe inputs prods) c → Quiescent F c → c.allDone = true)
     (h : Reachable F (Piter.init cap bm mw ns soe inputs prods) c) (hq : Quiescent F c) :
     (∀ t ∈ c.ths, t.isProd = true → t.q.pc = .done) ∧ (∀ t0, c.ths[0]? = some t0 → t0.cpc = .fin) ∧
